@@ -399,3 +399,37 @@ func VerifParseShape(args []string) {
 	vReach("parsed")
 	vAssert(verifShapeOf(prog, true) == args[1], "precedence/tree-shape#"+args[0])
 }
+
+func init() {
+	verifHarness["VerifFormatHistory"] = VerifFormatHistory
+	verifFreshFns["format"] = verifFresh_format
+}
+
+// verifFresh_format formats one input: args: text, mode. The result starts with a status byte.
+func verifFresh_format(args []string) string {
+	p := verifNew(args[0], false)
+	prog := p.ParseProgram()
+	if len(p.Errors()) > 0 || verifMissing(prog, false) {
+		return "E"
+	}
+	return "=" + verifPrint(prog, args[1] == "compact", false)
+}
+
+// VerifFormatHistory: formatting an input gives the same bytes whatever the process parsed and printed before
+// (C03: "in any process and after any other inputs were parsed"). args: template, earlier template, mode
+func VerifFormatHistory(args []string) {
+	input := verifText(verifHoles(args[0]))
+	earlier := verifText(verifHoles(args[1]))
+	if verifFresh_format([]string{earlier, args[2]}) == "E" {
+		vReach("earlier input rejected")
+		return
+	}
+	after := verifFresh_format([]string{input, args[2]})
+	if after == "E" {
+		vReach("input rejected")
+		return
+	}
+	vReach("formatted after another input")
+	fresh := vFresh("format", []string{input, args[2]})
+	vAssert(after == fresh, "history/format-depends-on-earlier-parses|"+args[2])
+}
